@@ -67,12 +67,12 @@ def targetOp (op : String) (args : List String) : Option J :=
   | "target.pref", [f] => do
       let f ← decFlags f
       pure (jok (.arr [.arr ((ipPref f).map J.nat), .nat (familyArg (ipPref f))]))
-  | "target.order", [f, rows] => do
+  | "target.order", [f, rows] => do      -- f: the ip_version_preference list itself (API level)
       let f ← decFlags f
       let rows ← decStrs rows
       let tab ← rows.mapM decRow
       let ans : List AddrInfo := tab.map (fun r => { af := r.2.1, stype := r.2.2.1, ip := r.2.2.2, port := 0 })
-      pure (jok (.arr ((resolveOrder (ipPref f) ans).map (fun a => .arr [.nat a.af, .str a.ip]))))
+      pure (jok (.arr ((resolveOrder f ans).map (fun a => .arr [.nat a.af, .str a.ip]))))
   | "target.cmdline", [host, oport, flags, client, targets] => do
       let a ← decArgs host oport flags client targets
       pure (jres jconf (cmdline a))
